@@ -33,7 +33,7 @@ XAccept            == (\E tp \in ValidT, c \in BOOLEAN : AddAccept(tp, c)) /\ Ke
 XRejectInvalid     == (\E tp \in InvalidT : AddRejectInvalid(tp, FALSE)) /\ Keep
 XRejectConflict    == (\E tp \in ValidT : AddRejectConflict(tp, FALSE)) /\ Keep
 XRejectPathNotLast == (\E tp \in ValidT : AddRejectPathNotLast(tp, FALSE)) /\ Keep
-XFind              == Find(CHOOSE p \in Paths : TRUE) /\ Keep     \* which path is irrelevant for the view
+XFind              == Find(<< <<>> >>) /\ Keep       \* the path "/": which path is looked up is irrelevant for the view
 XNext == XAccept \/ XRejectInvalid \/ XRejectConflict \/ XRejectPathNotLast \/ XFind
 (* these two depend on `accepted` only (given FindIsIdealDFS); every value of `accepted` is reached by a
    history without rejected adds and without compile flags, so they are evaluated there *)
